@@ -16,8 +16,8 @@ const oaValidationSrc = "internal/openapiv3/validation.go"
 //   - the `switch field.Desc.Kind()` of extractValidationConstraints: kind -> apply function;
 //   - the FieldRules getter each apply function reads;
 //   - per apply function, which rule accessor guards which schema field, in source order;
-//   - the keys of every composite literal stored in ExclusiveMinimum / ExclusiveMaximum
-//     (a base.DynamicValue renders its B side only when N is 1);
+//   - the keys and the N value of every composite literal stored in ExclusiveMinimum /
+//     ExclusiveMaximum (a base.DynamicValue renders its B side only when N is 1);
 //   - the keys of every &yaml.Node{...} literal (an untagged scalar is re-typed by the reader);
 //   - the well-known format switch of applyStringConstraints;
 //   - the conversions applied to the count rules (int64(uint64)).
@@ -146,7 +146,7 @@ func extractOaRules() (string, error) {
 						field := strings.TrimPrefix(exprString(x.Lhs[0]), "schema.")
 						assigns = append(assigns, leanTuple(name, acc, field))
 						if field == "ExclusiveMinimum" || field == "ExclusiveMaximum" {
-							exclusive = append(exclusive, fmt.Sprintf("(%s, %s, %s)", leanStr(name), leanStr(field), leanStrList(litKeys(x.Rhs[0]))))
+							exclusive = append(exclusive, fmt.Sprintf("(%s, %s, %s, %s)", leanStr(name), leanStr(field), leanStrList(litKeys(x.Rhs[0])), leanStr(litValue(x.Rhs[0], "N"))))
 						}
 					}
 					// local := int64(x.GetY())
@@ -177,7 +177,7 @@ func extractOaRules() (string, error) {
 	fmt.Fprintf(&b, "/-- the `IsList()` / `IsMap()` branches. -/\ndef cardApply : List (String × String) := %s\n", leanPairs(cardApply))
 	fmt.Fprintf(&b, "/-- apply function ↦ the FieldRules getter it reads. -/\ndef applyGetter : List (String × String) := %s\n", leanPairs(applyGetter))
 	fmt.Fprintf(&b, "/-- (apply function, guarding rule accessor, schema field assigned), in source order. -/\ndef assigns : List (String × String × String) := %s\n", leanList(assigns))
-	fmt.Fprintf(&b, "/-- keys of the composite literals stored in ExclusiveMinimum / ExclusiveMaximum. -/\ndef exclusiveLits : List (String × String × List String) := %s\n", leanList(exclusive))
+	fmt.Fprintf(&b, "/-- the composite literals stored in ExclusiveMinimum / ExclusiveMaximum: (apply function, schema field, keys of the literal, source text of its `N` value or \"\"). -/\ndef exclusiveLits : List (String × String × List String × String) := %s\n", leanList(exclusive))
 	fmt.Fprintf(&b, "/-- keys of every `yaml.Node{...}` literal (apply function, guarding accessor, keys). -/\ndef nodeLits : List (String × String × List String) := %s\n", leanList(nodeLits))
 	fmt.Fprintf(&b, "/-- numeric conversions applied to rule values before they are stored (apply function, accessor, conversion). -/\ndef conversions : List (String × String × String) := %s\n", leanList(countConv))
 	fmt.Fprintf(&b, "/-- the well-known format switch of applyStringConstraints: accessor ↦ format, in source order. -/\ndef formatSwitch : List (String × String) := %s\n", leanPairs(formatSwitch))
@@ -200,6 +200,23 @@ func accessorOf(e ast.Expr) string {
 		return accessorOf(x.X)
 	case *ast.ParenExpr:
 		return accessorOf(x.X)
+	}
+	return ""
+}
+
+// litValue returns the source text of the value a composite literal gives to key ("" if absent).
+func litValue(e ast.Expr, key string) string {
+	if u, ok := e.(*ast.UnaryExpr); ok {
+		e = u.X
+	}
+	cl, ok := e.(*ast.CompositeLit)
+	if !ok {
+		return ""
+	}
+	for _, el := range cl.Elts {
+		if kv, ok := el.(*ast.KeyValueExpr); ok && exprString(kv.Key) == key {
+			return srcOf(kv.Value)
+		}
 	}
 	return ""
 }
